@@ -12,6 +12,31 @@ CHECKS = {
     "C01": dict(level="exploration", engine="E1", tech=E1, design="3/C01",
                 text="every circuit of a bounded grammar (<=3 variables, <=3 units, Hadamard/Kronecker, 4 sum placements, n-ary sums, 4 output variants, 5 numberings, 14 input kinds) under 3 semirings x 4 flag combinations is evaluated on its complete input table in several batch presentations and compared with an independent numpy reference; complete enumeration of the declared space, no sampling of programs/configurations/inputs",
                 note="trusted: the symbolic data structures as carrier of the denotation, the numpy reference (self-tested), generic-point argument for real parameters"),
+
+    "C02": dict(level="exploration", engine="E1", tech=E1, design="3/C02",
+                text="every circuit / operator pipeline of the bounded alphabet is compiled with four fresh compilers (fold x optimize) per semiring, the same symbolic values bound through the compiler registry, and compared on the complete input table pairwise (1e-10) and with a definitional oracle; the registry is checked to be a bijection between symbolic tensors and compiled slices; the run fails if some rewrite (Tucker, CP-T, tensordot, sum collapse, log-softmax, einsum) or fold group never occurred",
+                note="trusted: numpy reference and definitional oracles; generic-point argument for parameter values"),
+    "C03": dict(level="exploration", engine="E1", tech=E1, design="3/C03",
+                text="for every circuit of the alphabet with integrable inputs and EVERY non-empty subset Z of its scope (and every ordered pair of disjoint subsets) the compiled integral circuit is compared at every remaining assignment with a brute-force sum / Gauss-Legendre quadrature of the operand's reference function, under all semirings x flags",
+                note="continuous variables: quadrature, 1e-6 relative; at most 2 continuous variables integrated numerically"),
+    "C04": dict(level="exploration", engine="E1", tech=E1, design="3/C04",
+                text="all ordered pairs / squares / chains of circuits of the alphabet (independent units, input kinds, sum arity, mixing, Hadamard/Kronecker, every product-input permutation, conditioned operands) are multiplied; a returned circuit must equal the outer product of the operands' reference functions in Kronecker unit order on every input under all semirings x flags; a raise is counted as refusal by exception type",
+                note="any exception raised by multiply counts as 'raises an error' (property wording); refusal counts are in the evidence"),
+    "C05": dict(level="exploration", engine="E1", tech=E1, design="3/C05",
+                text="polynomial-input circuits over 1..4 variables under every numbering (incl. ids >= 8, gaps, non-monotone) x degree x order: outputs of the compiled differential circuit compared, in increasing-variable-id order, with exact interpolation + analytic differentiation of the operand's reference function",
+                note="interpolation degree assumption is itself verified at two fresh points per case"),
+    "C06": dict(level="exploration", engine="E1", tech=E1, design="3/C06",
+                text="every non-empty observation subset x every observed value of the domain x every remaining assignment for every circuit of the alphabet (plus evidence followed by integrate/square/evidence) compared with substitution into the operand's reference; every operand list of length 1..3 for concatenate compared with stacking",
+                note="continuous observed values from a 3-point grid"),
+    "C07": dict(level="exploration", engine="E1", tech=E1, design="3/C07",
+                text="complex and real valuations of every circuit of the alphabet, as base circuits and as results of multiply/integrate/evidence: conjugate(c), conjugate(conjugate(c)) and integrate(conjugate(c)) compared with numpy conj of the definitional oracle under all admissible semirings x flags",
+                note="complex parameters only in the complex-lse-sum semiring; missing conjugation rules are counted refusals"),
+    "C08": dict(level="exploration", engine="E1", tech=E1, design="3/C08",
+                text="ALL symbolic circuit structures with <= 5 (thorough 6) layers over 3 variables (valid and invalid, empty and multivariate input scopes) and all ordered pairs of structures with <= 4 layers: flags compared with set-based definitions, soundness of structured-decomposability / compatibility, symmetry, invariance under product-input permutation and 4 variable renamings",
+                note="one unit per layer; omni-compatibility is not part of the property and not checked"),
+    "C09": dict(level="exploration", engine="E1", tech=E1, design="3/C09",
+                text="the same exhaustive population fed to every operator with every argument (all subsets of {0..3} as integration scope / observation, orders -1..2, all ordered pairs for multiply) and to the query constructors: documented exception and no circuit on invalid input; recomputed structural post-conditions on every returned circuit",
+                note="predicates used on results are validated independently by C08"),
 }
 
 NA_DEFAULT = "check under construction in this session (claimed once its driver is committed)"
